@@ -10,9 +10,9 @@ R4 exception types: every throw reachable from the evaluation entry points is de
    std::exception; no re-throw outside a handler; no throw inside a noexcept function
 R5 fixed-size destinations (shared with C06-R3): writes into T[N], std::array, std::bitset<N>,
    std::vector<bool> destinations are bounds-proved
-NOT decided: bounds of the ArgListIterator cursor (mArgIndex/mArgCharPos) and termination - this
-needs relational invariants between the cursor and the per-word string lengths across calls that
-Engine C does not infer."""
+R6 cursor of detail::ArgListIterator (c04_cursor.py): four-case inductive invariant relating the word
+   index and the character position to argc and the per-word string lengths
+NOT decided: termination."""
 import os
 import re
 
@@ -276,8 +276,15 @@ def run(chk):
         'iteration counter and the lock-step counter argc) and on the assign() of every fixed-size destination: every '
         'strcpy/subscript/new[] carries a capacity obligation. AST rules for new[]/delete[]/unique_ptr form agreement. '
         'Exception-type rule over the call-graph closure of the evaluation entry points with a positive control. '
-        'The ArgListIterator cursor bounds and termination are NOT decided (declared, not faked).')
+        'R6: the cursor of detail::ArgListIterator is decided by an inductive four-case invariant (word start / '
+        'inside a -abc word / value after --name= / end): established by the constructor, preserved by operator++ '
+        'from each case (the recursive step on a lone "--" by assume-guarantee), with a bounds obligation on every '
+        'argv[ i] and word[ j] for symbolic argc, word lengths and bytes; the stored element refers to a word of '
+        'argv and a single-character argument lies inside it. Termination is not decided.')
     chk.assumptions = ['argv[0] is a NUL-terminated string', 'new T[ n] yields n elements',
+                       'R6: argc >= 1, argv[0..argc) are C strings shorter than 2 GiB (character positions are kept in '
+                       'an int), argv[argc] is a null pointer; argsAsString()/isSingleArg() are used on iterators '
+                       'that differ from end() (the handler loop condition)',
                        'boost::lexical_cast<T> may return any value of T']
     chk.rule('R1', 'strcpy destinations have room for the source and its terminator', 5)
     chk.rule('R2', 'allocation and deallocation forms agree', 8)
@@ -290,5 +297,9 @@ def run(chk):
     r2_forms(chk, prog, eng)
     r4_exceptions(chk, prog)
     r5_fixed_size(chk, prog, eng)
+    chk.rule('R6', 'ArgListIterator: the cursor invariant (four cases) is established and preserved; every argv[ i] '
+             'and word[ j] access is inside', 40)
+    from . import c04_cursor
+    c04_cursor.run(chk, prog)
     if eng.unsupported:
         chk.notes.append('constructs evaluated as opaque: %s' % sorted(set(eng.unsupported))[:12])
